@@ -158,6 +158,5 @@ func genWX(seed uint64, tier, prop string) *wxScenario {
 		}
 		s.Servers = append(s.Servers, sv)
 	}
-	s.TailNs = 400 * sec
 	return s
 }
